@@ -178,8 +178,17 @@ func (s *reportSim) WarriorLivingCount() int {
 	return s.warriorLivingCount
 }
 
-func (s *reportSim) RunCycle() int {
+// finished reports whether the battle cannot proceed: the cycle limit is
+// reached, nobody is alive, or a single survivor remains among several.
+func (s *reportSim) finished() bool {
 	if s.cycleCount >= s.maxCycles || s.warriorLivingCount < 1 {
+		return true
+	}
+	return s.warriorCount > 1 && s.warriorLivingCount == 1
+}
+
+func (s *reportSim) RunCycle() int {
+	if s.finished() {
 		return 0
 	}
 
@@ -418,7 +427,7 @@ func (s *reportSim) Run() []bool {
 	}
 
 	// run until simulation
-	for s.cycleCount < s.maxCycles {
+	for !s.finished() {
 		aliveCount := s.RunCycle()
 
 		if nWarriors == 1 && aliveCount == 0 {
